@@ -5,7 +5,9 @@ import time
 CONTRACT_MODULES = ['c02_outputs', 'c15_iterations']
 LEVEL = 'other'
 TRUSTED = ['LIBSPEC-os: os.replace is atomic; a file opened with "w" may hold any prefix of what was written until it is closed']
-ASSUMPTIONS = ['no other process writes the iteration file']
+ASSUMPTIONS = ['no other process writes the iteration file',
+               'assumed contracts (verify=False): Database.build_panel_map (individual map = panel.map_of(data, panel column) afterwards), Database.get_sample_size, BIOGEME._save_iterations_file_name and report_array (pure)',
+               'precondition of calculate_likelihood_and_derivatives: the id manager numbers the free parameters (free_betas.indices is a dict, names as many as number_of_free_betas)']
 EXPLANATION = ('Proved (pyvc, all inputs): calculate_likelihood_and_derivatives raises the best-so-far marker to f exactly when it saves (finite gradient norm, finite f, '
                'marker None or f >= marker) and keeps it otherwise; a file is installed by os.replace iff it saves, under the iteration-file name, holding one complete '
                '"name = value" line per free parameter in name order (loop invariant on the lines written to the temporary file); results are scaled by the sample size. '
